@@ -401,6 +401,16 @@ class ModuleVistor(NodeVisitor):
                                         f'{modname}.{origin_name}', thresh=1)
             else:
                 if origin_module.all is None or origin_name not in origin_module.all:
+                    # A top-level module cannot be moved (there is no parent to
+                    # leave an alias in), and an object cannot be moved into
+                    # itself or into one of its own members.
+                    into: Optional[model.Documentable] = current
+                    while into is not None and into is not ob:
+                        into = into.parent
+                    if into is ob or not isinstance(ob.parent, model.CanContainImportsDocumentable):
+                        current.report("cannot move re-exported name :"
+                                        f'{modname}.{origin_name}', thresh=1)
+                        return False
                     self.system.msg(
                         "astbuilder",
                         "moving %r into %r" % (ob.fullName(), current.fullName())
